@@ -11,7 +11,7 @@ from world import Violation
 from runner import ddmin
 import runner
 
-NAMES = ["m0", "m1", "m2", "m3", "m4", "m5"]
+NAMES = ["m0", "m1", "m2", "m3", "m4", "m5", "m6", "m7", "m8", "m9"]
 
 
 def has_cycle(nodes, deps):
@@ -46,7 +46,7 @@ class ModProfile:
     name = "modules"
 
     def gen_run(self, rnd, opts, tier, tag):
-        n = rnd.randint(2, 6)
+        n = rnd.randint(2, 6) if rnd.random() < 0.93 else rnd.randint(7, 10)
         nodes = NAMES[:n]
         order = nodes[:]
         rnd.shuffle(order)
